@@ -85,6 +85,25 @@ class StmtMixin:
             return SList([self.havoc_value("%s[%d]" % (name, i), x, st) for i, x in enumerate(v.items)], v.dt)
         raise Unsupported("havoc of %s : %r" % (name, type(v)))
 
+    def havoc_reachable_arrays(self, hv, v, nm):
+        """a store through `nm` inside a loop body where nm is a dataset / data array / view: every heap array it can reach
+        is unknown at the loop head"""
+        tn = type(v).__name__
+        if tn == "SDs":
+            for d in v.vars.values():
+                self.havoc_reachable_arrays(hv, d, nm)
+        elif tn == "SData":
+            self.havoc_reachable_arrays(hv, v.arr, nm)
+        elif tn == "LArr":
+            if v.base is not None:
+                havoc_cell(hv, v.base[0], nm)
+        elif isinstance(v, SArr):
+            havoc_cell(hv, v, nm)
+        elif isinstance(v, tuple):
+            for x in v:
+                if isinstance(x, SArr) or type(x).__name__ in ("SDs", "SData", "LArr"):
+                    self.havoc_reachable_arrays(hv, x, nm)
+
     # ------------------------------------------------------------ blocks
     def exec_block(self, stmts, st):
         """-> list of (state, outcome, payload)"""
@@ -482,6 +501,8 @@ class StmtMixin:
                 for x in v:
                     if isinstance(x, SArr):
                         havoc_cell(hv, x, nm)
+            else:
+                self.havoc_reachable_arrays(hv, v, nm)
         self.havoc_for_calls(calls, hv)
         if step > 0:
             hv.assume(zs(c) >= zs(start))
@@ -511,6 +532,9 @@ class StmtMixin:
                     s2.log = None
                     for cl, g in self.eval_invs(invs, s2, tname, c + step):
                         self.emit(s2, "inv-keep", "loop%d.L%d" % (k, cl.lineno), g, s, "preserved: " + cl.text())
+                        if self.opt("chain_invariants", False):
+                            # A and B is shown as A, then A -> B: later clauses may use the earlier ones at the new state
+                            s2.assume(g)
                 elif oc == BREAK:
                     s2.log = st.log
                     out.append((s2, NORMAL, None))
@@ -578,6 +602,8 @@ class StmtMixin:
                 havoc_cell(m, v, nm)
                 if nm not in called_with:
                     self.frame_inference(m, st, v, before, pats.get(nm), set(names) | set(stores) | {tname}, "\0none", fresh_int("unused"), 0, 1)
+            else:
+                self.havoc_reachable_arrays(m, v, nm)
         self.havoc_for_calls(calls, m)
         for cl in afters:
             m.assume(as_bool(self.eval_spec(cl.expr, m)))
@@ -681,6 +707,8 @@ class StmtMixin:
             v = hv.vars.get(nm)
             if isinstance(v, SArr):
                 havoc_cell(hv, v, nm)
+            else:
+                self.havoc_reachable_arrays(hv, v, nm)
         self.havoc_for_calls(calls, hv)
         for cl in invs:
             hv.assume(as_bool(self.eval_spec(cl.expr, hv)))
